@@ -224,6 +224,10 @@ func runC17(cx *Ctx, r *Report) {
 		}
 	}
 	cx.lostUpdateRule(r, []string{"oracle"}, 8)
+	// per-feed isolation of the value history: the feed name is delimited in the value keys
+	if n := cx.nameDelimitedRule(r, "oracle", "key-name-delimited"); n < 1 {
+		r.toolErr("no oracle key constructor with a name followed by further components found (GetFeedValueKey confirmed)")
+	}
 	r.requireCount("trim-count", 2)
 	r.requireCount("creator-guard", 3)
 	r.requireCount("state-mirror", 4)
